@@ -2,9 +2,9 @@ package main
 
 import (
 	"bufio"
+	"fmt"
 	"go/ast"
 	"go/constant"
-	"fmt"
 	"go/token"
 	"go/types"
 	"os"
@@ -30,6 +30,7 @@ type Engine struct {
 	pureMethods   map[string]bool
 	guards        map[string]string // "pkg.T.field" -> mutex field name
 	lockScope     map[string]bool
+	acqCache      map[*ssa.Function]map[string]bool
 	fileLines     map[string][]string
 	noEffect      []string
 	repo          string
@@ -250,6 +251,7 @@ func (e *Engine) verifyFunc(fn *ssa.Function, con *Contract) *VC {
 	key := funcKey(fn)
 	vc := newVC(e, key)
 	vc.topFn = fn
+	vc.topCon = con
 	if con != nil && con.Flags["safety_off"] {
 		vc.safetyOff = true
 		vc.note("safety_off: panic-freedom of this function is not checked")
@@ -259,6 +261,11 @@ func (e *Engine) verifyFunc(fn *ssa.Function, con *Contract) *VC {
 		vc.note("calls_havoc: preconditions of callees under contract are not checked and their postconditions are not used (only their frames)")
 	}
 	st := &State{pc: "true", cells: map[*Cell]Val{}, heap: map[string]string{}, epoch: "0", ghost: map[string]Val{}, locks: map[string]int{}}
+	if con != nil {
+		for l, m := range con.Holds {
+			st.locks[l] = m
+		}
+	}
 	st.next = vc.sc.fresh("next0", sortRef)
 	vc.sc.assert(sx(">", st.next, "0"))
 	next0 := st.next
